@@ -231,10 +231,11 @@ type gen2Span struct{}
 func init() {
 	register(&Property{
 		ID:    "C03",
-		Rule:  "inputs: random bytes; hostile constants from the statement (CBOR tag/half float/minors 28-30/lengths 2^63..2^64-1, UBJSON bad length markers/unterminated containers/$N, JSON broken escapes and lone surrogates) alone, with random tails or spliced into valid documents; every proper prefix of valid own/foreign documents; 1-2 byte-level mutations of valid documents (bit flip, insert, delete, overwrite, hostile length fields); long concatenations for the linear bound x chunkings x entry points {Parse, ParseString, ParseReader, Write, NewBytesDecoder+Next, NewDecoder+Next with buffer sizes 1..4096}; oracle = no panic, no hang (watchdog), Next loop <= len+2 calls, TotalAlloc <= 64KiB+buf+64*len, ParseString leaves its argument intact, and inputs the reference decoder classifies as 'needs more input' must end in an error other than io.EOF at every end-aware entry point; non-trivial = at least one event delivered or input >= 2 bytes; distinct by case hash",
+		Rule:  "inputs: random bytes; hostile constants from the statement (CBOR tag/half float/minors 28-30/lengths 2^63..2^64-1, UBJSON bad length markers/unterminated containers/$N, JSON broken escapes and lone surrogates) alone, with random tails or spliced into valid documents; every proper prefix of valid own/foreign documents; 1-2 byte-level mutations of valid documents (bit flip, insert, delete, overwrite, hostile length fields); long concatenations for the linear bound x chunkings x entry points {Parse, ParseString, ParseReader, Write, NewBytesDecoder+Next, NewDecoder+Next with buffer sizes 1..4096}; oracle = no panic, no hang (watchdog), Next loop <= len+2 calls, TotalAlloc <= 64KiB+buf+64*len, ParseString leaves its argument intact, and inputs the reference decoder classifies as 'needs more input' must end in an error other than io.EOF at every end-aware entry point; deterministic part: every prefix (incl. empty and full) of a fixed set of valid documents and every hostile constant x all 6 entry points; non-trivial = at least one event delivered or input >= 2 bytes; distinct by case hash",
 		New:   func() any { return &C03Case{} },
 		Draw:  drawC03,
 		Check: checkC03,
+		Enum:  enumC03,
 	})
 }
 
